@@ -32,6 +32,7 @@ def run_lockstep(ctx, r, drv):
         plan = [(ctx.seed, 4000)]
     else:
         plan = [(ctx.seed + k, 40000) for k in range(4)]
+    restarts = 0
     for sd, n in plan:
         first = 0
         while first < n:
@@ -104,7 +105,10 @@ def run_lockstep(ctx, r, drv):
                 r.hits.append(Hit('monitor', 'C14:lockstep:crash', 'lock-step harness died rc=%d in case %d seed %d: %s' % (rc, last, sd, out[-300:]),
                                   {'harness': 'c14_lockstep', 'args': [sd, last, 1]}))
             first = last + 1
-            if len([h_ for h_ in r.hits if h_.kind == 'monitor']) > 200:
+            restarts += 1
+            # every hang costs a watchdog period: a few are evidence enough
+            if restarts >= (6 if rc == 5 else 3) or len([h_ for h_ in r.hits if h_.kind == 'monitor']) > 200:
+                r.notes.append('lock-step run cut short after %d restarts of the harness (hang / stuck / crash)' % restarts)
                 return
 
 
